@@ -68,6 +68,15 @@ class Ctx:
                 else:
                     self.broken_proofs.append('%s: axioms=%s' % (t, axs.get(t)))
                 self.proof['axioms'][t] = axs.get(t)
+            if self.tier == 'thorough':
+                # independent re-check of the compiled theorems by the toolchain's leanchecker (replays every declaration in the kernel)
+                lc = {}
+                for m in mods_exist:
+                    r = subprocess.run(['lake', 'env', 'leanchecker', m], cwd=LEAN, stdout=subprocess.PIPE, stderr=subprocess.STDOUT, text=True)
+                    lc[m] = 'ok' if r.returncode == 0 else ('FAILED: ' + r.stdout[-300:])
+                    if r.returncode != 0: self.broken_proofs.append('leanchecker rejects %s: %s' % (m, r.stdout[-200:]))
+                self.proof['leanchecker'] = lc
+                self.proof['checker_cmd'] += '; lake env leanchecker <module> for each of them'
 
     # ------------------------------------------------------------------ implementation
     def build(self, variants=('prod', 'san')):
@@ -167,6 +176,7 @@ class Ctx:
                         'trusted_base': ['Lean 4.33.0 kernel', 'axioms: ' + ', '.join(sorted({a for v in self.proof['axioms'].values() if v for a in v})),
                                          'correspondence harness + generators (tools/, harness/)', 'model TJ.Impl hand-written'],
                         'theorems': self.proof['theorems'], 'axioms': self.proof['axioms'], 'broken': self.broken_proofs})
+            if self.proof.get('leanchecker'): cov['leanchecker'] = self.proof['leanchecker']
         level = 'proof' if has_proof else level_if_no_proof
         if evals == 0 and not has_proof: level = 'other'; cov['explanation'] = cov.get('explanation', 'no stream')
         return res.finish(level, cov, self.assume)
@@ -261,6 +271,22 @@ def _roundtrip(ctx, mode):
         exp = 'ret=0 mlen=%d out=%s slack=ok inputs=ok' % (len(c['m']), hx(c['m']))
         if o != exp:
             ctx.fail(mode + '-roundtrip', [l, dl], o, exp, 'decrypt(encrypt(m)) must return 0, mlen and exactly m (second op decrypts the output of the first)')
+    # a build variant whose encryption differs from the model: does the round trip fail ON THAT VARIANT?
+    for v in sorted({d[1] for d in ctx.diffs if d[0] == mode + '.enc' and d[1] != 'prod'}):
+        sub = [(c, l) for c, l in zip(cases, lines)]
+        eo = run_stateless(ctx.meta, v, [l for _, l in sub])
+        dls = []; keep = []
+        for (c, l), o in zip(sub, eo):
+            out = field(o, 'out')
+            if out is None or len(unhx(out)) != len(c['m']) + 8: continue
+            d = dict(c); d['c'] = unhx(out); d.pop('m_null', None)
+            keep.append((c, l)); dls.append(dec_line(mode + '.dec', d))
+        do = run_stateless(ctx.meta, v, dls)
+        for (c, l), dl, o in zip(keep, dls, do):
+            exp = 'ret=0 mlen=%d out=%s slack=ok inputs=ok' % (len(c['m']), hx(c['m']))
+            if o != exp:
+                ctx.fail(mode + '-roundtrip', [l, dl], o, exp, 'on build variant %s decrypt(encrypt(m)) does not return m (second op decrypts what the first produced on that variant)' % v, variant=v)
+                break
 
 def check_C01(ctx):
     ctx.lean(); ctx.build()
@@ -625,6 +651,17 @@ def _streaming_check(ctx, kind):
 def check_C11(ctx):
     ctx.lean(); ctx.build()
     _streaming_check(ctx, 'h')
+    if ctx.tier == 'thorough':
+        # lengths that do not fit 32 bits (a long soak: about 90 s of hashing per case, both digests computed in parallel)
+        hl = ['h.huge 5 4294967299 24']
+        st = ctx.streams.setdefault('h.huge', {'evaluations': 0, 'nontrivial': set(), 'diffs': 0})
+        out = run_impl(ctx.meta, 'prod', hl, timeout=900)
+        st['evaluations'] += len(hl)
+        for l, o in zip(hl, out):
+            st['nontrivial'].add(hashlib.md5(l.encode()).digest())
+            if o.startswith('skip'): ctx.extra_cov['h.huge'] = o; continue
+            if field(o, 'stream') != field(o, 'oneshot') or field(o, 'stream') is None:
+                ctx.fail('h-streaming-huge', [l], o, 'stream = oneshot', 'init + update(a) + update(b) + update(c) over a+b+c zero bytes differs from the one-shot digest when a length exceeds 32 bits (op: h.huge a b c)')
 
 def _rfc_hmac(hashf, key, msg):
     if len(key) > 64: key = hashf(key)
@@ -991,6 +1028,15 @@ def check_C16(ctx):
     ctx.lean(); ctx.build()
     _prng_streams(ctx, ('C16',))
     _exhaustive_prng(ctx, 3 if ctx.tier == 'quick' else 4)
+    # directed histories: a limit lowered below what was already generated, feeds, the limit raised again; limits beyond the 1 MiB clamp
+    e32 = lambda: hx(ctx.g.bytes(32, 'rand'))
+    dl = ['p.script 1 %s' % ','.join('%s:32' % e32() for _ in range(6)), 'p.inituser 1 user 1 -', 'p.gen 1 1024', 'p.limit 1 32', 'p.feed 1 aa', 'p.feed 1 bb',
+          'p.limit 1 1024', 'p.gen 1 2100', 'p.dump 1',
+          'p.script 2 %s' % ','.join('%s:32' % e32() for _ in range(6)), 'p.inituser 2 user 1 -', 'p.limit 2 2097152', 'p.genbig 2 1048640', 'p.dump 2',
+          'p.script 3 %s' % ','.join('%s:32' % e32() for _ in range(6)), 'p.inituser 3 user 1 -', 'p.limit 3 18446744073709551615', 'p.genbig 3 1048609', 'p.gen 3 64']
+    di, dm = ctx.corr('p.directed-limits', dl, ('prod',), stateless=False, nontrivial=lambda i: dl[i].startswith('p.gen'))
+    dl = [l.replace('p.genbig', 'p.gen') for l in dl]   # the predicate below reads request positions the same way for both ops
+    _prng_predicates(ctx, dl, di, ('C16',))
     # the counter wrap: reseed_counter white-box set to 2^32-2 (stands for 2^32-3 feeds), then two feeds and generates
     ops = ['p.script 0 %s' % ','.join('%s:32' % hx(ctx.g.bytes(32, 'rand')) for _ in range(4)), 'p.inituser 0 user 1 -', 'p.limit 0 64',
            'p.pokerc 0 4294967294', 'p.feed 0 aa', 'p.feed 0 bb', 'p.dump 0', 'p.gen 0 200']
@@ -1029,6 +1075,16 @@ def check_C17(ctx):
     for j in range(0, len(pl), 6):
         if field(pi[j + 2], 'out') == field(pi[j + 5], 'out'):
             ctx.fail('prng-partial-not-mixed', pl[j:j + 6], pi[j + 5], 'a different output', 'two short deliveries with different bytes produced the same generator output: delivered bytes were not mixed in')
+    # ... and on reseed: same initial seeding, then a short delivery with different bytes must lead to different output
+    rl = []
+    for k in (1, 7, 31):
+        ent = g.bytes(32, 'rand'); a, b = g.bytes(k, 'rand'), g.bytes(k, 'rand')
+        rl += ['p.script 0 %s:32,%s:%d' % (hx(ent), hx(a), k), 'p.inituser 0 user 1 -', 'p.reseed 0', 'p.gen 0 32',
+               'p.script 1 %s:32,%s:%d' % (hx(ent), hx(b), k), 'p.inituser 1 user 1 -', 'p.reseed 1', 'p.gen 1 32']
+    ri, rm = ctx.corr('p.partial-reseed-mixed', rl, ('prod',), stateless=False)
+    for j in range(0, len(rl), 8):
+        if field(ri[j + 3], 'out') == field(ri[j + 7], 'out'):
+            ctx.fail('prng-partial-reseed-not-mixed', rl[j:j + 8], ri[j + 7], 'a different output', 'two reseeds with short deliveries of different bytes (same state before) produced the same generator output: the delivered bytes were not mixed in')
     # NULL callback == plain init (system source), all with the same scripted OS outcomes
     nl = []
     for t in range(6 if ctx.tier == 'quick' else 30):
@@ -1085,9 +1141,33 @@ def check_C18(ctx):
 
 # =========================================================================== C05 permutation back ends
 
+def _perm_minic(ctx):
+    """the three C permutations as REGENERATED from the sources, executed by the MiniC interpreter on random states, keys and round
+    counts (0..24 and the counts the library uses) against the compiled code and the model: a three-way agreement"""
+    import taint
+    ok, stats = taint.regenerate(ctx, ('tjminic',))
+    if stats.get('errors'): ctx.broken_proofs.append('tools/c2lean.py cannot translate the current sources: ' + '; '.join(stats['errors'][:3])); return
+    if not ok or not os.path.exists(taint.MINIC): ctx.broken_proofs.append('regenerated MiniC program no longer builds'); return
+    g = ctx.g; lines = []
+    for i in range(240 if ctx.tier == 'quick' else 2400):
+        v = g.choice([128, 192, 256])
+        lines.append('perm %d %s %s %d' % (v, hx(g.bytes(16)), hx(g.bytes(KEYLEN[v])), g.choice(list(range(0, 25)) + [5, 8, 9, 10, 20])))
+    mo = taint.run_minic(lines); io = run_stateless(ctx.meta, 'prod', lines); do = run_driver(lines)
+    st = ctx.streams.setdefault('perm(minic)', {'evaluations': 0, 'nontrivial': set(), 'diffs': 0})
+    st['evaluations'] += len(lines)
+    for l, m, c, d in zip(lines, mo, io, do):
+        st['nontrivial'].add(hashlib.md5(l.encode()).digest())
+        if m != c or c != d:
+            st['diffs'] += 1
+            if c != d: ctx.diffs.append(('perm', 'prod', 0, [l], c, d, 0, True))
+            else: ctx.broken_proofs.append('MiniC(regenerated permutation) disagrees with the compiled code and the model on "%s": %s' % (l[:100], m[:100]))
+            break
+    ctx.variants_used.add('minic')
+
 def check_C05(ctx):
     ctx.lean(); ctx.build()
     _perm_stream(ctx, 3000 if ctx.tier == 'quick' else 30000)
+    _perm_minic(ctx)
     try:
         import backends
         backends.check(ctx)
